@@ -62,8 +62,8 @@ mk('core_geom_emit_thorough', 'Core', 4, 'TargetsG', 'Q', 'TCoreH7', 'HVals2', "
 mk('core_geom_mc', 'Core', 4, 'TargetsG', 'Q', 'TCoreH78', 'HDom123', "thorough: read-back clauses three edits deep around height changes of blocks 7 and 8, edits at the centre assembly and the core", RB + PROP, G)
 # thorough emission two edits deep
 mk('blk_emit_thorough', 'Blk', 3, 'Targets', 'Q', 'TBlkHAll', 'HVals2', "thorough emission: every edge two edits deep on the block tree", EMIT + 'INVARIANT TypeOK\nCHECK_DEADLOCK FALSE\n')
-mk('core_emit_thorough', 'Core', 3, 'Targets', 'Q', 'TCoreH7', 'HVals2', "thorough emission: every edge two edits deep on the third core", EMIT + 'INVARIANT TypeOK\nCHECK_DEADLOCK FALSE\n')
-mk('gap_emit_thorough', 'Gap', 3, 'TargetsAll', 'Q', 'TGapHAll', 'HVals2', "thorough emission: every edge two edits deep on the block with a negative-area gap", EMIT + 'INVARIANT TypeOK\nCHECK_DEADLOCK FALSE\n')
+mk('core_emit_thorough', 'Core', 3, 'TargetsE', 'Q', 'TCoreH7', 'HVals2', "thorough emission: every edge two edits deep on the third core", EMIT + 'INVARIANT TypeOK\nCHECK_DEADLOCK FALSE\n')
+mk('gap_emit_thorough', 'Gap', 3, 'Targets', 'Q', 'TGapHAll', 'HVals2', "thorough emission: every edge two edits deep on the block with a negative-area gap", EMIT + 'INVARIANT TypeOK\nCHECK_DEADLOCK FALSE\n')
 # design-dependent clauses
 mk('clauses', 'Core', 2, 'TargetsProbe', 'Q', 'None', 'HDom123', "the clauses that depend on the design switches (see header of Inventory.tla), checked with -continue so that each is reported", 'INVARIANT CutLeafMassesAgree\nPROPERTY CutLeafReadBack\nPROPERTY ScaleAtAnyLevel\nCHECK_DEADLOCK FALSE\n')
 for t in ('Core', 'Edge', 'Gap'):
